@@ -393,6 +393,7 @@ class Repo:
         self.functions: Dict[str, FuncInfo] = {}
         self.classes: Dict[str, ClassInfo] = {}
         self.renamed_back: Dict[str, Dict[str, str]] = {}
+        self.normalized: List[str] = []
         self._load()
 
     # ---- loading
@@ -417,6 +418,11 @@ class Repo:
             except SyntaxError as e:
                 raise AnchorError(modname, f"syntax error: {e}")
             tree = _DropLocalAnnotations().visit(tree)
+            from . import normalize
+
+            for line in normalize.normalize_tree(tree, modname, names_table()):
+                self.normalized.append(line)
+            assign_order(tree)
             self.modules[modname] = ModuleInfo(modname, path, rel, tree, src, is_pkg)
         for m in self.modules.values():
             self._index_module(m)
@@ -641,6 +647,23 @@ def real_body(stmts) -> List[ast.stmt]:
     return [s for s in stmts if not is_noise(s)]
 
 
+def assign_order(root) -> None:
+    """number every node in depth-first source order (`_ord`): after normalisation line numbers no longer order the
+    statements of a function (inlined code carries the position of its call site)"""
+    k = 0
+    todo = [root]
+    while todo:
+        n = todo.pop()
+        n._ord = k
+        k += 1
+        todo.extend(reversed(list(ast.iter_child_nodes(n))))
+
+
+def order_key(n) -> int:
+    o = getattr(n, "_ord", None)
+    return o if o is not None else getattr(n, "lineno", 0) * 10000 + getattr(n, "col_offset", 0)
+
+
 def local_names_in_order(fn) -> List[str]:
     """names bound (Store/Del) inside the function subtree, excluding parameters of any def in it, names declared
     global/nonlocal and names of nested defs, in order of first binding"""
@@ -664,7 +687,7 @@ def local_names_in_order(fn) -> List[str]:
         if isinstance(n, ast.Name) and isinstance(n.ctx, (ast.Store, ast.Del)):
             if n.id in params or n.id in declared or n.id in nested:
                 continue
-            pos = (getattr(n, "lineno", 0), getattr(n, "col_offset", 0))
+            pos = (order_key(n), 0)
             if n.id not in seen or pos < seen[n.id]:
                 seen[n.id] = pos
     return [k for k, _ in sorted(seen.items(), key=lambda kv: kv[1])]
